@@ -369,6 +369,13 @@ func RunC11(env *sim.Env) {
 		hist = append(hist, fmt.Sprintf("c%d:%s", r.client, r.op))
 		env.Event("%d-%d c%d %s -> %016x err=%q", r.call, r.ret, r.client, r.op, sim.HashString(norm(r.out)), norm(r.err))
 	}
+	for _, cl := range sched.Clients {
+		for i, n := range cl.Sites {
+			if n > 0 {
+				env.Stat("yield_sites:"+simrt.SiteNames[i], n)
+			}
+		}
+	}
 	env.Stat("counters:yields", int64(sched.Steps))
 	env.Stat("counters:context_switches", int64(sched.Switches))
 	env.Stat("counters:operations", int64(len(all)))
@@ -425,6 +432,8 @@ func RunC11(env *sim.Env) {
 	env.Stat("probe:development_mode", int64(b2i(devMode)))
 	env.Stat("probe:user_supplied_locked_cache", int64(b2i(useLockedCache)))
 	env.Stat("probe:pct_strategy", int64(b2i(sched.Strategy == simrt.StratPCT)))
+	env.Reach("schedules", fmt.Sprintf("%016x", sched.SwitchHash))
+	env.Reach("operation_histories", fmt.Sprintf("%016x", sim.HashString(strings.Join(hist, ";"))))
 	env.Res.Nontrivial = sched.Switches > 1 && len(all) > 1
 	env.Res.Sig = fmt.Sprintf("%016x", sched.SwitchHash^sim.HashString(strings.Join(hist, ";")))
 	env.Res.Sample = fmt.Sprintf("%d clients, %d yields, %d context switches, dev=%v lockedCache=%v\nschedule-ordered operations: %s\nworld:\n%s", nClients, sched.Steps, sched.Switches, devMode, useLockedCache, strings.Join(hist, " "), sim.Clip(gw.String(), 1200))
